@@ -37,7 +37,7 @@ ASSUMPTIONS = [
     "DELEGATECALL/CALLCODE under an active prank and cheatcodes inside failing or static frames are not generated (repository tests are silent)",
     "fresh values: the k-th created symbol (name suffix _kk) is bound to the k-th oracle value on both sides",
 ]
-WATCHDOG_S = {"quick": 1500, "thorough": 7200}
+WATCHDOG_S = {"quick": 2400, "thorough": 10800}
 
 MANIFEST = {
     "technique": "model-based history testing of cheatcodes: generated action sequences compiled to bytecode, SEVM.run vs reference EVM + independent cheatcode model; fresh symbols handled as oracle inputs (range/encoding/independence via arbitrary in-range tuples)",
